@@ -3,7 +3,7 @@
 # Tries a seeded change in a scratch worktree: a copy of the harness is pointed at the worktree, the patch is applied
 # there, the quick checks run with scratch work/evidence dirs, and the patch is reverted. /repo is not touched.
 WT=$1; P=$2; shift; shift
-S=/tmp/mh/$(basename $WT)
+S=/tmp/mh/$(echo $WT | tr "/" "_")
 mkdir -p $S
 rsync -a --delete --exclude target /verif/harness/ $S/harness/
 sed -i "s#path = \"/repo\"#path = \"$WT\"#" $S/harness/Cargo.toml
